@@ -238,6 +238,35 @@ class Ctx:
             out.add((body.id, r, tuple(p)))
         return out
 
+    def closure_item_sources(self, closure_id):
+        """For a closure handed to an iterator adaptor (map / for_each / filter / all / any ..): which collections of the defining
+        function the closure's item parameter ranges over.  Returns (parent body, {item path prefix: operand of the parent}) - e.g.
+        for `a.iter().zip(b.iter()).map(|(x, y)| ..)`: {('0',): a-iter operand, ('1',): b-iter operand}; for a plain `a.iter().map(|x| ..)`:
+        {(): a-iter operand}.  None if the shape is not recognised."""
+        site = self.closure_site(closure_id)
+        if not site:
+            return None
+        pb, rv = site
+        for bb, t in pb.calls():
+            if not any(a["k"] in ("copy", "move") and any(r[0] == "agg" and pb.blocks[r[1]]["stmts"][r[2]]["rv"] is rv for (r, p) in pb.trace(a["place"], through={}))
+                       for a in t["args"][1:]):
+                continue
+            recv = t["args"][0]
+            if recv["k"] not in ("copy", "move"):
+                return None
+            out = {}
+            for (r, p) in pb.trace(recv["place"], through={}):
+                if r[0] == "call" and mir.last_seg(str(r[2])) == "zip":
+                    z = pb.term(r[1])
+                    out[("0",)] = z["args"][0]
+                    out[("1",)] = z["args"][1]
+                elif r[0] == "call" and mir.last_seg(str(r[2])) == "enumerate":
+                    out[("1",)] = pb.term(r[1])["args"][0]
+                else:
+                    out[()] = recv
+            return pb, out
+        return None
+
     def closure_callees(self, closure_id, depth=3):
         """Last path segments of everything a closure body (and the closures it defines) calls."""
         out = set()
